@@ -60,7 +60,7 @@ def gen_cases(rng, count, tier='quick'):
             # what happened to the model object before the fit that is judged (used by the streams that look at histories)
             history=rng.choice(['none', 'none', 'none', 'refit-lam', 'refit-lam', 'refit-data']),
             # used only by streams that opt in (build(..., opt_in=True)): features of huge magnitude; exposure of a PoissonGAM
-            feature_units=rng.choice(['plain', 'plain', 'plain', 'huge']),
+            feature_units=(rng.choice(['plain', 'plain', 'plain', 'huge']), 'huge' if (i % 3 == 1) else 'plain')[1],
             exposure_mode=rng.choice(['none', 'pos', 'pos']) if cls == 'PoissonGAM' else 'none',
         ))
     return cases
@@ -106,8 +106,20 @@ def build(case, pygam=None, opt_in=False):
     huge = 0.5 if (opt_in and case.get('feature_units') == 'huge') else 0.0
     # huge raw features enter one at a time (a linear or spline term on a timestamp): no tensor products of them — columns
     # of magnitude 1e18 are beyond what any solve without equilibration can be held to
-    pr = termgen.gen_program(rng, pygam, n_rows=260, n_query=12, allow_constraints=case['constraints'],
-                             allow_periodic_penalty=True, max_terms=case['max_terms'], tensor_prob=(0.0 if huge else 0.25), huge_prob=huge)
+    if opt_in and case.get('forced') == 'huge-linear':
+        # a fixed design, in every run: a linear term on a raw timestamp (1.7e9 + seconds) next to a spline and an
+        # intercept — badly scaled, perfectly well-posed
+        from pygam.terms import SplineTerm, LinearTerm, Intercept, TermList
+        Xh = np.zeros((260, 3))
+        Xh[:, 0] = 1.7e9 + 1000.0 * np.array([rng.randint(0, 1024) / 1024.0 for _ in range(260)])
+        Xh[:, 1] = np.array([rng.randint(0, 1024) / 1024.0 for _ in range(260)])
+        Xh[0, :2], Xh[1, :2] = (1.7e9, 0.0), (1.7e9 + 1000.0, 1.0)
+        tlh = TermList(LinearTerm(0, lam=rng.choice([0.0, 0.6])), SplineTerm(1, n_splines=rng.choice([6, 10]), lam=rng.choice([0.01, 0.6])), Intercept())
+        tlh.compile(Xh)
+        pr = termgen.Program(tlh, Xh, Xh[:12].copy(), termgen.encode_terms(tlh), dict(n_terms=3, kinds=['linear_term', 'spline_term', 'intercept_term'], m_features=3, tensor_sizes=[]))
+    else:
+        pr = termgen.gen_program(rng, pygam, n_rows=260, n_query=12, allow_constraints=case['constraints'],
+                                 allow_periodic_penalty=True, max_terms=case['max_terms'], tensor_prob=(0.0 if (huge and not case.get('huge_products')) else 0.25), huge_prob=huge)
     tl = pr.terms
     m = int(tl.n_coefs)
     if m > 110:
